@@ -196,9 +196,13 @@ func tryReplay(l *Loaded, pc *PropConfig, r *FuncResult, d Discharge, dir string
 	if len(tag) > 80 {
 		tag = tag[:80]
 	}
-	model, solverOut, err := extractModel(r.exec, d, rp, tag)
-	if err != nil {
-		return replayResult{why: err.Error()}
+	model, solverOut := map[string]ModelValue{}, d.Res.Output
+	if len(rp.Inputs) > 0 {
+		var err error
+		model, solverOut, err = extractModel(r.exec, d, rp, tag)
+		if err != nil {
+			return replayResult{why: err.Error()}
+		}
 	}
 	data := map[string]any{"Obligation": d.Ob.Name, "Property": pc.ID}
 	modelJSON := map[string]any{}
@@ -444,6 +448,115 @@ func TestGocvReplay(t *testing.T) {
 	replayers["(*ttlv.ttlvReader).value"] = decodeOracle("dec.buf")
 	replayers["(*ttlv.ttlvReader).assertType"] = decodeOracle("dec.buf")
 	replayers["ttlv.newTTLVReader"] = decodeOracle("buf")
+	// Stream.Recv: the failing obligations are about loop states; the witness is searched over a small family
+	// of scripted transports (every chunking of one or two messages into <= 4 reads, each read optionally
+	// reporting an error together with its data, optional (0, nil) reads, truncation at every offset).
+	replayers["(*ttlv.Stream).Recv"] = &Replayer{PkgDir: "ttlv", Inputs: nil,
+		Oracle: "scripted io.Reader family: Recv returns exactly the sent messages in order, consumes exactly their bytes, returns an error for a truncated stream, returns the message whenever the transport delivered all of its bytes (even if the last Read also reports an error), and rejects an announced size above max",
+		Template: strings.Replace(replayPrelude, "{{.Pkg}}", "ttlv", 1) + `
+type gocvStep struct {
+	n   int
+	err error
+}
+
+type gocvScripted struct {
+	data  []byte
+	pos   int
+	steps []gocvStep
+	k     int
+	maxAsk int
+}
+
+func (s *gocvScripted) Read(p []byte) (int, error) {
+	if len(p) > s.maxAsk {
+		s.maxAsk = len(p)
+	}
+	if s.k >= len(s.steps) {
+		return 0, fmt.Errorf("script exhausted")
+	}
+	st := s.steps[s.k]
+	s.k++
+	n := st.n
+	if n > len(p) {
+		n = len(p)
+	}
+	if n > len(s.data)-s.pos {
+		n = len(s.data) - s.pos
+	}
+	copy(p, s.data[s.pos:s.pos+n])
+	s.pos += n
+	return n, st.err
+}
+func (s *gocvScripted) Write(p []byte) (int, error) { return len(p), nil }
+func (s *gocvScripted) Close() error                { return nil }
+
+func TestGocvReplay(t *testing.T) {
+	msgA := MarshalTTLV(Value{Tag: 0x420001, Value: int32(7)})
+	msgB := MarshalTTLV(Value{Tag: 0x420002, Value: "hello world, this is a text"})
+	eof := fmt.Errorf("EOF-with-data")
+	for _, msgs := range [][][]byte{ {msgA}, {msgB}, {msgA, msgB}, {msgB, msgA} } {
+		var all []byte
+		for _, m := range msgs {
+			all = append(all, m...)
+		}
+		// chunkings: cut points c1 <= c2 <= c3 within the stream
+		for c1 := 0; c1 <= len(all); c1++ {
+			for _, c2 := range []int{c1, (c1 + len(all)) / 2, len(all)} {
+				for errAt := -1; errAt < 3; errAt++ {
+					cuts := []int{c1, c2, len(all)}
+					var steps []gocvStep
+					prev := 0
+					for i, c := range cuts {
+						if c < prev {
+							c = prev
+						}
+						var e error
+						if i == errAt {
+							e = eof
+						}
+						steps = append(steps, gocvStep{c - prev, e})
+						prev = c
+					}
+					sc := &gocvScripted{data: all, steps: steps}
+					st := NewStream(sc, 0)
+					delivered := func() int { return sc.pos }
+					consumedBefore := 0
+					for mi, m := range msgs {
+						var v Value
+						var err error
+						if p := gocvCatch(func() { err = st.Recv(&v) }); p != nil {
+							t.Fatalf("GOCV-REPRODUCED: {{.Obligation}}: panic %v", p)
+						}
+						end := consumedBefore + len(m)
+						if err == nil {
+							if sc.pos != end {
+								t.Fatalf("GOCV-REPRODUCED: {{.Obligation}}: message %d returned but %d bytes consumed instead of %d (steps %v)", mi, sc.pos, end, steps)
+							}
+							if !bytes.Equal(MarshalTTLV(v), m) {
+								t.Fatalf("GOCV-REPRODUCED: {{.Obligation}}: message %d altered (steps %v)", mi, steps)
+							}
+							consumedBefore = end
+							continue
+						}
+						if delivered() >= end {
+							t.Fatalf("GOCV-REPRODUCED: {{.Obligation}}: transport delivered all %d bytes of message %d but Recv returned %v (reads %v)", len(m), mi, err, steps)
+						}
+						break
+					}
+				}
+			}
+		}
+	}
+	// announced size above the limit: rejected, and the reader is never asked for the announced amount
+	big := []byte{0x42, 0, 1, 8, 0x00, 0x10, 0x00, 0x00}
+	sc := &gocvScripted{data: append(big, make([]byte, 64)...), steps: []gocvStep{ {8, nil}, {64, nil}, {64, nil} }}
+	st := NewStream(sc, 4096)
+	var v Value
+	if err := st.Recv(&v); err == nil || sc.maxAsk > 4096 {
+		t.Fatalf("GOCV-REPRODUCED: {{.Obligation}}: announced 1 MiB with max 4096: err=%v, largest read request %d", err, sc.maxAsk)
+	}
+}
+`}
 	replayers["ttlv.bytesToBigInt"] = &Replayer{PkgDir: "ttlv", Inputs: []ReplayInput{{Name: "V", Expr: "v", Kind: "bytes"}},
 		Oracle: "bytesToBigInt on the model's bytes returns normally and leaves its argument unchanged",
 		Template: strings.Replace(replayPrelude, "{{.Pkg}}", "ttlv", 1) + `
